@@ -37,6 +37,9 @@ def run(ctx):
         b, plain, evs = synth.with_unknown_events(rng, r, density=rng.choice([0.1, 0.3, 0.6]))
         cases.append(('u%d' % i, [b.hex(), '-', '-', '-'])); cases.append(('p%d' % i, [plain.hex(), '-', '-', '-']))
         meta.append(('unknown', 'u%d' % i, 'p%d' % i, sum(1 for k, _ in evs if k == 'unknown')))
+        if r.end and i % 3 == 0:          # the skip-frames read jumps over them by the declared sizes
+            cases.append(('us%d' % i, [b.hex(), 's', '-', '-'])); cases.append(('ps%d' % i, [plain.hex(), 's', '-', '-']))
+            meta.append(('unknown', 'us%d' % i, 'ps%d' % i, sum(1 for k, _ in evs if k == 'unknown')))
     for i in range(n // 2):
         v = rng.choice([(3, 17), (3, 20), (3, 255), (4, 0), (4, 6), (5, 1), (255, 255)])
         x = rng.randrange(1, 10)
@@ -53,6 +56,9 @@ def run(ctx):
         if r2.end: r2.end_blk = r2.end_blk + synth.rb(rng, x)
         cases.append(('x%d' % i, [synth.emit(r2).hex(), '-', '-', '-'])); cases.append(('y%d' % i, [synth.emit(r1).hex(), '-', '-', '-']))
         meta.append(('extra', 'x%d' % i, 'y%d' % i, x))
+        if r1.end and i % 2 == 0:         # skip-frames must use the Game End size the file declares, not the one peppi knows
+            cases.append(('xs%d' % i, [synth.emit(r2).hex(), 's', '-', '-'])); cases.append(('ys%d' % i, [synth.emit(r1).hex(), 's', '-', '-']))
+            meta.append(('extra', 'xs%d' % i, 'ys%d' % i, x))
     impl, model = both_modes(ctx, 'read', cases, corr, parallel=16)
     cd = dict(cases)
     for kind, a, b, k in meta:
